@@ -690,6 +690,10 @@ func grpcParseTimeout(timeout string) (time.Duration, error) {
 	if !ok {
 		return 0, fmt.Errorf("gRPC protocol error: timeout %q has invalid unit", timeout)
 	}
+	// The grammar is 1*8DIGIT: ParseInt would also accept a sign.
+	if first := timeout[0]; first == '+' || first == '-' {
+		return 0, fmt.Errorf("gRPC protocol error: invalid timeout %q", timeout)
+	}
 	num, err := strconv.ParseInt(timeout[:len(timeout)-1], 10 /* base */, 64 /* bitsize */)
 	if err != nil || num < 0 {
 		return 0, fmt.Errorf("gRPC protocol error: invalid timeout %q", timeout)
